@@ -160,6 +160,8 @@ def run_queries(base, queries, mir, timeout_ms, fast_check, prop, cube_name, kno
         if r == 'sat':
             if q.kind != 'property':
                 rec['inconclusive'].append(f'{q.kind} obligation {q.name} is sat (bound too small or model limit reached)'); continue
+            if q.world is None or not q.ops:
+                rec['inconclusive'].append(f'{q.name}: the solver found a counterexample but this obligation has no native replay; model: ' + str(model)[:800]); continue
             os.makedirs(replay_dir, exist_ok=True)
             path = os.path.join(replay_dir, f'{prop}_{cube_name}_{q.name}.json'.replace(' ', '_').replace('/', '_'))
             ok, det = replay_model(q, model, mir, fast_check, keep_path=path); rec['replayed'] += 1
